@@ -158,6 +158,11 @@ def judge(args):
     fault_kinds = ["exc"]
     if kind == "fault" and ("C06" in want or "C04" in want):
         fault_kinds = ["exc", "typeerr"]
+        if is_agg and case["log"][-1]["ev"] == "call" and "C06" in want:
+            # a callable of an aggregation may fail with the very exception that ends an iteration: not the
+            # end of the input (aggregations are no generators, nothing converts it on the way out)
+            # (a StopIteration cannot leave the user's own `async def` callable: Python turns it into RuntimeError there)
+            fault_kinds += ["stopasync"]
     flavours = [{"src": "cls", "call": "asyncdef"}]
     if "C04" in want:
         flavours.append({"src": "agen", "call": "asyncdef"})
